@@ -117,6 +117,22 @@ func runIncidents(c *run.Ctx, kinds []string) {
 	detail := func() map[string]any {
 		return map[string]any{"incidents": kinds, "trace_tail": w.TraceTail(traceN(c))}
 	}
+	// what the online monitors saw is reported however the episode ends
+	defer func() {
+		w.Mu.Lock()
+		online := append([]string(nil), w.Online...)
+		w.Mu.Unlock()
+		for _, o := range online {
+			sig := "deadline-discipline"
+			if strings.HasPrefix(o, "bounded wait") {
+				sig = "wait-without-progress-goes-on"
+			}
+			c.Violate(sig, o, detail())
+		}
+		for _, o := range d.LeftOpenSnapshot() {
+			c.Violate("failed-connection-left-in-use", o, detail())
+		}
+	}()
 	wedge := func(what string) bool {
 		wedged, report := w.Diagnose(1500 * time.Millisecond)
 		if wedged {
@@ -340,12 +356,6 @@ func runIncidents(c *run.Ctx, kinds []string) {
 	}
 	if d.BackoffStuck {
 		c.Violate("readbackoff-never-closes", "a ReadBackoff channel did not close", detail())
-	}
-	for _, o := range w.Online {
-		c.Violate("deadline-discipline", o, detail())
-	}
-	for _, o := range d.LeftOpenSnapshot() {
-		c.Violate("failed-connection-left-in-use", o, detail())
 	}
 	if !d.CloseAndWait() {
 		c.Spoiled()
